@@ -65,6 +65,12 @@ type c18Recorder struct {
 	h    http.Header
 }
 
+// VerifModel_http_NewRequest: the bridge's pre-check of the request parameters
+// (methods are fixed tokens in this harness).
+func VerifModel_http_NewRequest(method, target string, body io.Reader) (*http.Request, error) {
+	return &http.Request{Method: method, URL: &url.URL{Path: target}, Header: http.Header{}}, nil
+}
+
 // VerifModel_httptest_NewRecorder: a recorder with code 200 by default.
 func VerifModel_httptest_NewRecorder() *httptest.ResponseRecorder {
 	return &httptest.ResponseRecorder{HeaderMap: http.Header{}, Code: 200}
